@@ -51,7 +51,7 @@ def _cache_key():
     return _CACHE_KEY
 
 
-def _normalized_tree(source, path, name):
+def _normalized_tree(source, path, name, ext=()):
     """parse + normalise, memoised on disk by content (the cache is an
     optimisation only: a miss recomputes)"""
     import hashlib
@@ -61,8 +61,8 @@ def _normalized_tree(source, path, name):
     if os.environ.get("SA_NO_CACHE") == "1":
         tree = ast.parse(source, path)
         return tree, normalize.normalize(tree, name)
-    key = hashlib.sha1((_cache_key() + name + "\0" + source).encode()
-                       ).hexdigest()
+    key = hashlib.sha1((_cache_key() + name + "\0" + source + "\0"
+                        + ",".join(ext)).encode()).hexdigest()
     cdir = os.path.join(tempfile.gettempdir(), f"sa-cache-{os.getuid()}")
     cpath = os.path.join(cdir, key + ".pickle")
     try:
@@ -85,11 +85,12 @@ def _normalized_tree(source, path, name):
 
 
 class Module:
-    def __init__(self, name, path, source):
+    def __init__(self, name, path, source, ext=()):
         self.name = name
         self.path = path
         self.source = source
-        self.tree, self.normalized = _normalized_tree(source, path, name)
+        self.tree, self.normalized = _normalized_tree(source, path, name,
+                                                      ext)
         for parent in ast.walk(self.tree):
             for child in ast.iter_child_nodes(parent):
                 child._parent = parent
@@ -218,6 +219,7 @@ class Repo:
         pkgdir = os.path.join(self.root, PKG)
         if not os.path.isdir(pkgdir):
             raise AnalysisError(f"package directory {pkgdir} not found")
+        sources = []
         for dirpath, dirnames, filenames in sorted(os.walk(pkgdir)):
             dirnames[:] = sorted(d for d in dirnames
                                  if not d.startswith((".", "__pycache__")))
@@ -232,10 +234,32 @@ class Repo:
                     rel = rel[:-9]
                 with open(path, encoding="utf8") as fin:
                     src = fin.read()
-                try:
-                    self.modules[rel] = Module(rel, path, src)
-                except SyntaxError as e:
-                    raise AnalysisError(f"cannot parse {path}: {e}")
+                sources.append((rel, path, src))
+        # the names every module refers to (attributes, plain names, string
+        # constants): a helper that another module still calls is not dead
+        # when its own module's calls have been inlined
+        from . import normalize as _nz
+        refs = {}
+        for rel, path, src in sources:
+            try:
+                t_ = ast.parse(src, path)
+            except SyntaxError as e:
+                raise AnalysisError(f"cannot parse {path}: {e}")
+            refs[rel] = {x.attr for x in ast.walk(t_) if isinstance(
+                x, ast.Attribute)} | {x.id for x in ast.walk(t_)
+                                      if isinstance(x, ast.Name)}
+        for rel, path, src in sources:
+            ext = set()
+            for other, names_ in refs.items():
+                if other != rel:
+                    ext |= names_
+            _nz.EXTERNAL_REFS = ext
+            try:
+                self.modules[rel] = Module(rel, path, src, sorted(
+                    n for n in ext if ("def " + n + "(") in src))
+            except SyntaxError as e:
+                raise AnalysisError(f"cannot parse {path}: {e}")
+        _nz.EXTERNAL_REFS = set()
         for m in self.modules.values():
             for stmt in m.symbols.values():
                 if isinstance(stmt, ast.ClassDef):
